@@ -157,3 +157,18 @@ Definition eqb_add (a b : add) : bool :=
   && eqb_lists (eqb_lists eqb_node) (d_levels a) (d_levels b).
 Definition same_locs (a b : list loc) : bool :=
   Nat.eqb (length a) (length b) && forallb (fun l => existsb (eqb_loc l) b) a && forallb (fun l => existsb (eqb_loc l) a) b.
+
+(* the conditions on the component structure under which compile_model is correct (Proofs/CompileValid.v) *)
+Definition units_of (comps : list comp) : list nat := flat_map (fun c : comp => fst c ++ snd c) comps.
+Fixpoint row_ok (comps : list comp) (row : list nat) : bool :=
+  match comps with
+  | [] => false
+  | c :: rest => if memb (hd 0 row) (fst c ++ snd c)
+                 then negb (Nat.eqb (length row) 0) && forallb (fun v => memb v (fst c ++ snd c)) row
+                      && Nat.leb (length (filter (fun v => memb v (snd c)) row)) 1
+                 else row_ok rest row
+  end.
+Definition hints_ok (n : nat) (rows : list (list nat)) (comps : list comp) : bool :=
+  nodup_b (units_of comps) && forallb (fun u => Nat.ltb u n) (units_of comps) && Nat.eqb (length (units_of comps)) n
+  && forallb (fun c : comp => negb (Nat.eqb (length (snd c)) 0)) comps && negb (Nat.eqb (length comps) 0)
+  && forallb (row_ok comps) rows.
